@@ -115,7 +115,9 @@ func (c *collectionCodec) createInjector(dest interface{}, wasNull bool) (inject
 		case reflect.Interface:
 			if !wasNull {
 				var targetType reflect.Type
-				if targetType, err = PreferredGoType(c.DataType()); err == nil {
+				if targetType, err = PreferredGoType(c.DataType()); err == nil && !targetType.AssignableTo(destValue.Type()) {
+					err = ErrDestinationTypeNotSupported
+				} else if err == nil {
 					injectorFactory = func(size int) (injector, error) {
 						destValue.Set(reflect.MakeSlice(targetType, size, size))
 						return newSliceInjector(destValue.Elem())
